@@ -219,6 +219,14 @@ func (p *c20) indexed(sc *runner.Scenario, ex *c20Extra, st *runner.Stats, pin s
 			if capBytes > capBound && clause == "" && ex.Order != 0 {
 				clause, detail = "slot_capacity", fmt.Sprintf("after message %d: slot buffers hold %d bytes, bound %d (2x the %d largest chunks)", n, capBytes, capBound, depth)
 			}
+			if rb, pending, ok := mcap.VerifIterScratchCap(it); ok && clause == "" {
+				if pending > allowed*ex.PerCh {
+					clause, detail = "slot_capacity", fmt.Sprintf("after message %d: %d message index entries pending, at most %d chunks x %d messages can be outstanding", n, pending, allowed, ex.PerCh)
+				}
+				if rb > uint64(2*sizes[0])+64<<10 {
+					clause, detail = "slot_capacity", fmt.Sprintf("after message %d: record scratch buffer holds %d bytes, largest chunk is %d", n, rb, sizes[0])
+				}
+			}
 			return nil
 		})
 	})
